@@ -13,6 +13,9 @@ CLAIMED = {
     'C02': ('CBMC/DFCC function + loop contracts over a ghost-versioned state model, on code extracted from /repo each run',
             'proof for solver_t::done, lsearch_t::get and the do_minimize bodies shared by the 17 line-search solvers: status in {converged,max_iters,failed}; non-failed => valid (finite value and point); reported (x,f,g) is one consistent evaluation; reported counts <= evaluations performed; budget loop terminates and overshoots max_evals by at most one line search; the remaining solver bodies and the numeric clauses are not decided',
             'vector algebra erased (purity-checked), evaluation counting via ghost counter (function_t counters assumed to count evaluations), line search by the contract proved in C07', '7/C02'),
+    'C03': ('CBMC/DFCC function + loop contracts on code extracted from /repo each run',
+            'proof of the bundle representation invariant that every reported result of RQB/FPBA rests on: 0 < size < capacity after the constructor path, append and moveto; every index written into the bundle buffers < capacity; delete_largest reads the multipliers inside [0,size) and a full bundle loses at least `count` entries; the eps-optimality certificate itself (convex analysis on values) and the ellipsoid clauses are not decided',
+            'cardinality lemma for std::nth_element + nano::remove_if assumed (stated in specs/C03/bundle.h); matrix contents, smeared_e/s and the QP solve erased', '7/C03'),
     'C07': ('CBMC/DFCC function + loop contracts over a ghost-versioned state model, on code extracted from /repo each run',
             'proof for lsearchk_t::get/update and the backtrack, LeMarechal, Fletcher(+zoom) bodies: success is returned only right after the advertised predicates were evaluated true on the current trial point with the returned step, the state is then the valid evaluation at x+t*d, a non-descent direction is refused with the state untouched, every loop terminates',
             'state.update(x) = one evaluation at x (assumed), interpolation havocked, parameters inside their registered domains; success on quadratics and CG_DESCENT/More-Thuente bodies not decided', '7/C07'),
